@@ -13,6 +13,7 @@ import k3
 import k4
 import k5
 import k6
+import k7
 
 _CTX = {}
 
@@ -55,7 +56,7 @@ PROPS = {
     },
     "C04": {
         "title": "Concurrent gets, sets and deletes are linearizable and never panic or hang",
-        "rules": [k2.p6_reader_pool, k6.n2_mmap_extent, k2.p18_handle_delegation, k2.p3_publish_after_append, k2m.p4_merge_per_entry_order, k1.w2_index_mutators, k5.p17_read_under_index_guard],
+        "rules": [k2.p6_reader_pool, k6.n2_mmap_extent, k7.l1_lock_order, k2.p18_handle_delegation, k2.p3_publish_after_append, k2m.p4_merge_per_entry_order, k1.w2_index_mutators, k5.p17_read_under_index_guard],
         "decides": "the pooled reader returns on every exit incl. unwind; index published only after flushed bytes (put and merge); index mutated only under the writer mutex or before sharing; the file read happens under the index shard guard",
         "not_decided": "linearizability of histories and real-time order (statements about schedules of run-time events)",
     },
